@@ -243,10 +243,11 @@ method("_handle_fetch_response", "(%s, responses: List[FetchResponse]) -> None" 
 # when executed symbolically.  It is covered by the bounded scenario stand-in (specs/scenarios.py) instead; its
 # re-entrancy guard is what the rely clause "stopping-is-exclusive" records, and every other entry point proves the
 # matching guarantee.
-method("stop", "(%s) -> Optional[int]" % SELF, props=["C13"], no_guarantee=True,
-       requires=["not self._stopping"],
+# (no precondition and no exemption from the guarantees: a stop() re-entered while stopping returns at once, and every rely
+# clause is conditional on "was already stopping", so the outermost call satisfies them too)
+method("stop", "(%s) -> Optional[int]" % SELF, props=["C13"],
        # cut after every guarded cancellation (see pyvc/units.cut_segment): what survives an excursion while stopping
-       cut_points=dict(inv=["self._stopping", "self._start_d is not None", "self._start_d == old(self._start_d)"],
+       cut_points=dict(inv=["self._stopping", "self._start_d is not None", "self._start_d == old(self._start_d)", "not old(self._stopping)"],
                        # timers fire from the reactor only, never during an excursion: until stop() cancels them they stay pending
                        inv_until={"retry-timer-pending": ("self._retry_call is None or active(self._retry_call)", "self._retry_call"),
                                   "commit-timer-pending": ("self._commit_call is None or active(self._commit_call)", "self._commit_call")},
@@ -257,7 +258,7 @@ method("stop", "(%s) -> Optional[int]" % SELF, props=["C13"], no_guarantee=True,
        loops={"while#1": dict(index="n", inv=["self._stopping", "self._start_d is not None", "self._start_d == old(self._start_d)",
                                                "self._commit_call is None or active(self._commit_call)", "self._request_d is None"])},
        checkpoints={"fire:callback#1": {"stopped-before-notifying[C13]": "self._start_d is None and not self._stopping and self._request_d is None"}},
-       ensures={"start-deferred-fired-once[C13]": "called(old(self._start_d))",
+       ensures={"start-deferred-fired-once[C13]": "implies(not old(self._stopping), called(old(self._start_d)))",
                 "returns-last-processed[C13]": "result == self._last_processed_offset"},
        raises={"RestopError[C13]": "iff:self._start_d is None"})
 
